@@ -46,11 +46,12 @@ const (
 	opGetAll // Has and Get on every field, populated or not (empty read-only views)
 	opSharedMethodsSize    // Size through ONE protoiface.Methods value shared by all tasks
 	opSharedMethodsMarshal // Marshal through that same shared Methods value
+	opPlumbing             // Type / Descriptor / New / Zero / Interface / IsValid / GetUnknown of the reflection object
 	numOps
 )
 
 var opNames = []string{"Size", "Marshal", "MarshalDeterministic", "MarshalAppend", "Methods.Size", "Methods.Marshal", "Has/Get/views", "Range", "WhichOneof",
-	"Equal(equal peer)", "Equal(unequal peer)", "Clone(from)", "Merge(from)", "protojson.Marshal", "prototext.Marshal", "String", "getters", "MessageOf(struct reflection)", "anypb.New", "map/list view Range/Has/Get", "Has/Get on every field incl. unpopulated", "shared Methods.Size", "shared Methods.Marshal"}
+	"Equal(equal peer)", "Equal(unequal peer)", "Clone(from)", "Merge(from)", "protojson.Marshal", "prototext.Marshal", "String", "getters", "MessageOf(struct reflection)", "anypb.New", "map/list view Range/Has/Get", "Has/Get on every field incl. unpopulated", "shared Methods.Size", "shared Methods.Marshal", "Type/Descriptor/New/Zero/Interface/IsValid/GetUnknown"}
 
 type opInst struct {
 	Kind int
@@ -178,6 +179,13 @@ func doOp(m proto.Message, op opInst, env *opEnv) (res string) {
 		return fmt.Sprintf("%s %x", a.TypeUrl, a.Value)
 	case opGetAll:
 		return getAll(m.ProtoReflect(), 0)
+	case opPlumbing:
+		r := m.ProtoReflect()
+		mt := r.Type()
+		n := mt.New()
+		z := mt.Zero()
+		return fmt.Sprintf("%s %s %v %v %v %v %d %T %x", mt.Descriptor().FullName(), r.Descriptor().FullName(), r.IsValid(), n.IsValid(), z.IsValid(),
+			r.Interface() == m, r.Descriptor().Fields().Len(), n.Interface(), []byte(r.GetUnknown()))
 	case opSharedMethodsSize:
 		if env.methods == nil || env.methods.Size == nil {
 			return "no fast path"
